@@ -296,3 +296,147 @@ def oracle_cigar(line, out):
     op, kv = kv_of(line)
     pairs = [tuple(int(x) for x in t.split(":")) for t in kv.get("P", "").split(",") if t]
     return oracle_cigar_pairs(pairs, kv["rev"] == "1", out)
+
+
+# ------------------------------------------------------------------ C14
+def frac(s):
+    if "/" in s:
+        a, b = s.split("/")
+        return Fraction(int(a), int(b))
+    return Fraction(int(s))
+
+
+def join_exact(mult, var, prev, cur):
+    """independent exact restatement of the sequentiality score; prev/cur = (sr, sq, sqsite, er, eq, eqsite)"""
+    qlen = min(abs(cur[4] - cur[1]), abs(prev[4] - prev[1]))
+    rd = cur[0] - prev[3]
+    rlen = min(cur[3] - cur[0], prev[3] - prev[0])
+    reverse = cur[2] > cur[5]
+    qd = (prev[4] - cur[1]) if reverse else (cur[1] - prev[4])
+    if min(rlen + 2 * rd, qlen + 2 * qd) < 0:
+        return None
+    s, a, d = rd + qd, abs(rd) + abs(qd), rd - qd
+    if var == 0:
+        c = Fraction(s * s + d * d, max(abs(s), abs(d), 1))
+    else:
+        c = Fraction(a * a + d * d, max(a + abs(d), 1))
+    return -mult * c
+
+
+def oracle_join(line, out):
+    op, kv = kv_of(line)
+    mult, var = frac(kv["mult"]), int(kv["var"])
+    prev, cur = ints(kv["prev"]), ints(kv["cur"])
+    want = join_exact(mult, var, prev, cur)
+    if out.startswith("ERR"):
+        return f"exception {out}"
+    if out == "-inf":
+        return None if want is None else "minus infinity although overlap is at most half of the shorter segment"
+    v = frac(out)
+    if want is None:
+        return "finite join although a segment overlaps its neighbour by more than half"
+    if v > 0:
+        return f"positive join score {v}"
+    rd = cur[0] - prev[3]
+    qd = (prev[4] - cur[1]) if cur[2] > cur[5] else (cur[1] - prev[4])
+    if rd == 0 and qd == 0 and v != 0:
+        return f"contiguous join scores {v}, not 0"
+    if v != want:
+        return f"join score {v} differs from the stated formula {want}"
+    return None
+
+
+def seg_ends(items):
+    ps = [it for it in items if it[0] == "P"]
+    if not ps:
+        return None
+    a, b = ps[0], ps[-1]
+    return (a[2], a[4], a[3], b[2], b[4], b[3])
+
+
+def parse_segs(s):
+    out = []
+    if s == "":
+        return out
+    for t in s.split(";"):
+        peak, _, items = t.partition("|")
+        out.append((int(peak), parse_items(items)))
+    return out
+
+
+def item_score(P, it):
+    if it[0] == "P":
+        return P["sp"] - P["dp"] * abs(it[5])
+    return P["su"]
+
+
+def params_of(kv):
+    return {"sp": int(kv["sp"]), "dp": int(kv["dp"]), "su": int(kv["su"]), "md": int(kv["md"]),
+            "ms": int(kv["ms"]), "bs": int(kv["bs"])}
+
+
+def chain_total(P, mult, var, chain):
+    tot = Fraction(0)
+    for i, (peak, items) in enumerate(chain):
+        tot += sum(item_score(P, it) for it in items)
+        if i:
+            j = join_exact(mult, var, seg_ends(chain[i - 1][1]), seg_ends(items))
+            if j is None:
+                return None
+            tot += j
+    return tot
+
+
+AMBIGUOUS = [0]
+
+
+def oracle_chain(line, out):
+    import itertools
+    op, kv = kv_of(line)
+    P = params_of(kv)
+    mult, var = frac(kv["mult"]), int(kv["var"])
+    segs = parse_segs(kv.get("SEG", ""))
+    if out.startswith("ERR"):
+        return f"exception {out}"
+    res = parse_segs(out)
+    ne_in = [s for s in segs if s[1]]
+    em_in = [s for s in segs if not s[1]]
+    ne_out = [s for s in res if s[1]]
+    em_out = [s for s in res if not s[1]]
+    if em_out != em_in or res[len(ne_out):] != em_out:
+        return "empty segments not passed through unchanged at the end"
+    if not ne_in:
+        return None if not ne_out else "segments invented"
+    key = lambda s: (lambda e: e[0] + e[3] + e[1] + e[4])(seg_ends(s[1]))
+    order = sorted(ne_in, key=key)
+    # subsequence of the key order, each at most once
+    it = iter(order)
+    for s in ne_out:
+        for t in it:
+            if t == s:
+                break
+        else:
+            # equal keys may be permuted only by stability; accept if it is an order-respecting selection
+            # under *some* stable order: check keys non-decreasing and multiset inclusion
+            ks = [key(x) for x in ne_out]
+            if ks != sorted(ks) or any(ne_out.count(x) > order.count(x) for x in ne_out):
+                return "chain is not an order-respecting selection of the input segments"
+            break
+    got = chain_total(P, mult, var, ne_out)
+    if got is None:
+        return "chain total is minus infinity (a member overlaps its neighbour by more than half)"
+    if not ne_out:
+        return "no segment chosen"
+    if len(order) <= 10:
+        best = None
+        for k in range(1, len(order) + 1):
+            for idx in itertools.combinations(range(len(order)), k):
+                t = chain_total(P, mult, var, [order[i] for i in idx])
+                if t is not None and (best is None or t > best):
+                    best = t
+        if got < best:
+            if float(best - got) <= 1e-9 * max(1.0, abs(float(best))):
+                AMBIGUOUS[0] += 1
+                return None
+            return f"chain total {got} is below the best order-respecting selection {best}"
+    return None
